@@ -394,8 +394,62 @@ func (x *Exec) trIdent(env *Env, name string) Val {
 			return v
 		}
 	}
+	if v, ok := x.renamedLocal(env, name); ok {
+		return v
+	}
 	env.fail("unknown identifier %q", name)
 	return Val{}
+}
+
+func typeStr(t types.Type) string {
+	if t == nil {
+		return ""
+	}
+	return types.TypeString(t, func(p *types.Package) string { return p.Name() })
+}
+
+// renamedLocal: the contract names a local variable that no longer exists
+// under that name. If the contract declares its type (`local name T`) and the
+// function has exactly one local of that type that the contract does not
+// otherwise name, the clause is read with that variable (a renamed local must
+// not raise an alarm; a wrong guess can only make a proof fail, never pass).
+func (x *Exec) renamedLocal(env *Env, name string) (Val, bool) {
+	if x.c == nil || x.c.Locals == nil || env.st == nil {
+		return Val{}, false
+	}
+	want, ok := x.c.Locals[name]
+	if !ok {
+		return Val{}, false
+	}
+	params := map[string]bool{}
+	if x.fn != nil {
+		for _, p := range x.fn.Params {
+			params[p.Name()] = true
+		}
+		for _, p := range x.fn.FreeVars {
+			params[p.Name()] = true
+		}
+	}
+	var cands []string
+	for k, v := range env.vars {
+		if _, declared := x.c.Locals[k]; declared || params[k] || k == "result" || strings.HasPrefix(k, "range") || strings.HasPrefix(k, "result") {
+			continue
+		}
+		ty := v.Ty
+		if v.Ref != nil {
+			if pt, ok := v.RefTy.Underlying().(*types.Pointer); ok {
+				ty = pt.Elem()
+			}
+		}
+		if typeStr(ty) == want {
+			cands = append(cands, k)
+		}
+	}
+	if len(cands) != 1 {
+		return Val{}, false
+	}
+	x.trusted["contract names local `"+name+"`, which no longer exists: read as the only other local of type "+want+", `"+cands[0]+"`"] = true
+	return x.trIdent(env, cands[0]), true
 }
 
 func (x *Exec) nilOf(env *Env, t types.Type) Term {
